@@ -79,13 +79,20 @@ class AgentLeg:
         self.keys = list(keys)
         self.config = {'composite': composite, 'incl': incl, 'win': win_i, 'prio': prio, 'keys': self.keys, 'late': late}
         self.cn = Canon()
-        self._ops = [['step'], ['swap']] + ([['step_install']] if late else [])
+        self._ops = [['step'], ['swap']] + ([['step_install'], ['install_swap']] if late else [])
         for k in self.keys:
             self._ops += [['join', k], ['leave', k], ['step_with', 'join', k], ['step_with', 'leave', k]]
 
     def fresh(self):
         w = World()
-        w.model = m = new_model(seed=1)
+        if self.incl:
+            # a model class with an attribute of its own called `timestep` (the length of a step, in hours): the
+            # timestep stamped into a record is the scheduler's
+            class HoursModel(Core.Model):
+                timestep = 0.25
+            w.model = m = new_model(seed=1, cls=HoursModel)
+        else:
+            w.model = m = new_model(seed=1)
         w.agents = {}
         for k in self.keys:
             a = Core.Agent(k, m)
@@ -137,6 +144,11 @@ class AgentLeg:
             m.systems.add_system(w.col)
         w.mut = Mut('mut', m, priority=0)
         m.systems.add_system(w.mut)
+        if self.late:
+            class Dummy(Core.System):
+                def execute(self_):
+                    pass
+            m.systems.add_system(Dummy('dummy', m, priority=1))      # retired when the collector is swapped in
         w.res = []
         w.t = 0
         w.ref = []
@@ -187,7 +199,14 @@ class AgentLeg:
 
     def apply(self, w, op):
         env = w.model.environment
-        if op[0] == 'swap':
+        if op[0] == 'install_swap':
+            # between two timesteps a (warm-up) system is retired and the collector registered in its stead: the number
+            # of registered systems stays the same
+            if not w.installed:
+                w.model.systems.remove_system('dummy')
+                w.model.systems.add_system(w.col)
+                w.installed = True
+        elif op[0] == 'swap':
             # the model gets a fresh, empty environment (after the collector was built): collections follow the model
             w.model.environment = Core.Environment(w.model)
             w.gone |= set(w.res)       # whoever was resident stays behind in the abandoned environment
